@@ -25,8 +25,14 @@ use crate::util::{Rng, Stats, guarded};
 /// `rewrite`: exclude-glob rewrite of all snapshots with `forget` (new trees, new snapshots, old snapshots removed);
 /// `config`: the scenario is built on `OneConfigBackend` (one config file whatever its id, like real backends), the command
 /// runs through `RepoHandle::open_oc`; `key` adds a key, `keyrm` removes a key added in the pre-state.
-pub const CMDS: [&str; 12] =
-    ["backup", "forget", "prune", "prune-instant", "merge", "repairsnap", "repairidx-readall", "key", "copy", "rewrite", "config", "keyrm"];
+/// `prune` / `prune-instant` / `prune-early`: `instant_delete` × `early_delete_index` = (0,0) / (1,0) / (0,1); (1,1) is the
+/// documented-unsafe combination the property excludes.
+/// `repairidx`: `repair index` WITHOUT `--read-all` on the state an interrupted prune leaves (cut off right after it wrote its new
+/// index file: rebuilt packs are listed by the old AND the new index file, repacked blobs are stored twice) — a consistent state
+/// in which repair index has index files to reduce, to save and to remove.
+pub const CMDS: [&str; 14] = [
+    "backup", "forget", "prune", "prune-instant", "prune-early", "merge", "repairsnap", "repairidx-readall", "repairidx", "key", "copy", "rewrite", "config", "keyrm",
+];
 
 pub struct Scn {
     pub h: RepoHandle,
@@ -48,21 +54,25 @@ pub fn cfg(seed: u64) -> ConfigOptions {
 /// number of backups in the pre-state (an evolving source): 3 or 4 (2 to 4 where the command does not need three)
 fn n_pre(cmd: &str, seed: u64) -> u64 {
     match cmd {
-        "prune" | "prune-instant" => 3 + (seed / 7) % 2,
+        "prune" | "prune-instant" | "prune-early" | "repairidx" => 3 + (seed / 7) % 2,
         _ => 2 + (seed / 7) % 3,
     }
 }
 
 /// prune options by seed: plain / repack-all / fast-repack, max-unused 0 % or unlimited
-fn prune_opts_seed(instant: bool, seed: u64) -> PruneOptions {
+fn prune_opts_seed(instant: bool, early: bool, seed: u64) -> PruneOptions {
+    assert!(!(instant && early), "instant-delete + early-delete-index is excluded by the property");
     let i = if instant { '1' } else { '0' };
+    let e = if early { '1' } else { '0' };
     let (all, fast) = match (seed / 3) % 3 {
         0 => ('0', '0'),
         1 => ('1', '0'),
         _ => ('0', '1'),
     };
     let unused = if (seed / 11) % 3 == 0 { "u" } else { "p0" };
-    parse_opts(&format!("0,0,0,00{all}0{i}0{fast},u,{unused}")).unwrap().opts
+    // keep-delete: 0 (packs marked by the earlier prune are removed now) or one day (they stay marked; unused packs are only marked)
+    let keep_delete = if (seed / 13) % 3 == 0 { 86_400 } else { 0 };
+    parse_opts(&format!("0,0,{keep_delete},00{all}0{i}{e}{fast},u,{unused}")).unwrap().opts
 }
 
 fn prune_opts(instant: bool) -> PruneOptions {
@@ -87,7 +97,7 @@ pub fn prestate(cmd: &str, seed: u64) -> Result<Scn, String> {
         live.push((snap, Some(src)));
     }
     match cmd {
-        "prune" | "prune-instant" => {
+        "prune" | "prune-instant" | "prune-early" => {
             let (s, _) = live.remove(0);
             h.open().map_err(e)?.delete_snapshots(&[s.id]).map_err(e)?;
             let r = h.open().map_err(e)?;
@@ -96,6 +106,33 @@ pub fn prestate(cmd: &str, seed: u64) -> Result<Scn, String> {
             r.prune(&o, plan).map_err(e)?;
             let (s, _) = live.remove(0);
             h.open().map_err(e)?.delete_snapshots(&[s.id]).map_err(e)?;
+        }
+        "repairidx" => {
+            // the pre-state of the prune commands …
+            let (s, _) = live.remove(0);
+            h.open().map_err(e)?.delete_snapshots(&[s.id]).map_err(e)?;
+            let r = h.open().map_err(e)?;
+            let o = prune_opts(false);
+            let plan = r.prune_plan(&o).map_err(e)?;
+            r.prune(&o, plan).map_err(e)?;
+            let (s, _) = live.remove(0);
+            h.open().map_err(e)?.delete_snapshots(&[s.id]).map_err(e)?;
+            // … and a prune cut off right after the write of its (first) new index file
+            let o = prune_opts_seed(false, false, seed);
+            let probe = RepoHandle { be: MemBackend::from_store(h.be.store()), hot: None, key: h.key.clone() };
+            let r = probe.open().map_err(e)?;
+            let plan = r.prune_plan(&o).map_err(e)?;
+            r.prune(&o, plan).map_err(e)?;
+            let cut = probe.be.log().iter().position(|x| x.tpe == FileType::Index && x.write).map(|i| i + 1);
+            if let Some(cut) = cut {
+                h.be.clear_log();
+                h.be.set_crash_at(Some(cut));
+                let r = h.open().map_err(e)?;
+                if let Ok(plan) = r.prune_plan(&o) {
+                    _ = r.prune(&o, plan);
+                }
+                h.be.set_crash_at(None);
+            }
         }
         "repairsnap" => {
             // lose one data pack, then drop it from the index: the snapshots that need it are damaged
@@ -148,16 +185,17 @@ pub fn run_cmd(cmd: &str, seed: u64, h: &RepoHandle, scn: &Scn) -> RusticResult<
             let snaps: Vec<SnapshotFile> = live.iter().map(|l| l.0.clone()).collect();
             let glob = *Rng::new(seed ^ 0x7e).pick(&["!**/f1*", "!**/d1", "!**/sub", "!**/f2", "**/d0"]);
             let topts = RewriteTreesOptions::default().excludes(Excludes::default().globs(vec![glob.to_string()]));
-            r.rewrite_snapshots_and_trees(snaps, &RewriteOptions::default().forget(true), &topts).map(|_| ())
+            // with `forget` the rewritten snapshots replace the old ones (removals at the end), without they are added
+            r.rewrite_snapshots_and_trees(snaps, &RewriteOptions::default().forget(seed % 3 != 0), &topts).map(|_| ())
         }
         "keyrm" => h.open()?.delete_key(&scn.extra_key.expect("keyrm scenario has a key")),
         "forget" => {
             let ids: Vec<_> = live.iter().take(2).map(|l| l.0.id).collect();
             h.open()?.delete_snapshots(&ids)
         }
-        "prune" | "prune-instant" => {
+        "prune" | "prune-instant" | "prune-early" => {
             let r = h.open()?;
-            let o = prune_opts_seed(cmd == "prune-instant", seed);
+            let o = prune_opts_seed(cmd == "prune-instant", cmd == "prune-early", seed);
             let plan = r.prune_plan(&o)?;
             r.prune(&o, plan)
         }
@@ -456,7 +494,9 @@ fn exec_mon(cmd: &str, seed: u64, thorough: bool) -> String {
     if let Err(e) = state_ok(cmd, &scn.h, &scn.live, &BTreeSet::new()) {
         return format!("oracle-fail:{cmd}:final-{e}");
     }
-    for k in sample_ks(n, thorough, seed) {
+    // prune: every operation is a crash / fault point also in quick (the windows between index and pack removals are short)
+    let all_k = thorough || (cmd.starts_with("prune") && n <= 48);
+    for k in sample_ks(n, all_k, seed) {
         for crash in [true, false] {
             if !crash && k >= n {
                 continue;
